@@ -56,11 +56,15 @@ static void compare(const char* axis, const uint8_t* ref, size_t nref, const uin
 }
 
 /* leave hostile residue in a context */
-static void wear(ZSTD_CCtx* c, vrng* r, const uint8_t* x, size_t n, uint8_t* scratch, size_t cap)
+static void wear(ZSTD_CCtx* c, vrng* r, const uint8_t* x, size_t n, uint8_t* scratch, size_t cap, const vparams* own)
 {
     int const k = 1 + (int)vr_u(r, 3);
     for (int i = 0; i < k; i++) {
         vparams Q; vp_random(r, &Q, VP_MT | VP_MAGICLESS); if (Q.windowLog > 21) vp_level_only(&Q);
+        if (vr_chance(r, 1, 3)) {   /* a tiny or small frame (1..16 bytes dense, then up to 300) under the workload's OWN parameters: per-strategy state that only such frames set up */
+            size_t const m = V_MIN(n, vr_chance(r, 2, 3) ? 1 + vr_u(r, 16) : 1 + vr_u(r, 300)); ZSTD_CCtx_reset(c, ZSTD_reset_session_and_parameters);
+            if (!ZSTD_isError(vp_apply(c, own))) { if (vr_chance(r, 1, 2)) ZSTD_compress2(c, scratch, cap, x, m); else { ZSTD_inBuffer in = { x, m, 0 }; ZSTD_outBuffer out = { scratch, cap, 0 }; ZSTD_compressStream2(c, &out, &in, ZSTD_e_end); } }
+            continue; }
         ZSTD_CCtx_reset(c, ZSTD_reset_session_and_parameters); if (ZSTD_isError(vp_apply(c, &Q))) continue;
         size_t const m = n ? 1 + vr_u64(r, n) : 0; size_t const off = n > m ? vr_u64(r, n - m) : 0;
         switch (vr_u(r, 6)) {
@@ -86,8 +90,10 @@ static void run_case(long idx)
     W.oneShot = (int)vr_u(&r, 3) == 0;
     h_gen_script(&r, W.n, &W.S, 0);
     uint8_t* dict = NULL; ZSTD_CDict* cd = NULL;
-    if (vr_chance(&r, 1, 3)) { W.dictLen = 1 + vr_u(&r, 40000); dict = (uint8_t*)malloc(W.dictLen); gen_data(&r, dict, W.dictLen, fam); if (W.n > 32) memcpy(dict, x, V_MIN(W.dictLen, W.n / 2)); if (W.dictLen >= 4 && dict[0] == 0x37 && dict[1] == 0xA4 && dict[2] == 0x30 && dict[3] == 0xEC) dict[0] ^= 1; W.dict = dict; W.dictMode = 1 + (int)vr_u(&r, 3);
+    if (vr_chance(&r, 1, 3)) { W.dictLen = vr_chance(&r, 1, 4) ? 1 + vr_u(&r, 16) : 1 + vr_u(&r, 40000); dict = (uint8_t*)malloc(W.dictLen); gen_data(&r, dict, W.dictLen, fam); if (W.n > 32) memcpy(dict, x, V_MIN(W.dictLen, W.n / 2)); if (W.dictLen >= 4 && dict[0] == 0x37 && dict[1] == 0xA4 && dict[2] == 0x30 && dict[3] == 0xEC) dict[0] ^= 1; W.dict = dict; W.dictMode = 1 + (int)vr_u(&r, 3);
         if (W.dictMode == 3) { cd = ZSTD_createCDict_advanced(dict, W.dictLen, ZSTD_dlm_byRef, ZSTD_dct_rawContent, ZSTD_getCParams(W.P.level ? W.P.level : 3, 0, W.dictLen), ZSTD_defaultCMem); if (!cd) W.dictMode = 1; } }
+    /* prefix mode: half of the cases with ZSTD_c_deterministicRefPrefix, which promises an output independent of where the prefix lies relative to the source */
+    int const detPrefix = (W.dictMode == 2) && vr_chance(&r, 1, 2); if (detPrefix) { vp_add(&W.P, ZSTD_c_deterministicRefPrefix, 1); vp_redesc(&W.P); }
     size_t const cap = ZSTD_compressBound(W.n) + 1024;
     uint8_t* ref = (uint8_t*)malloc(cap); uint8_t* var = (uint8_t*)malloc(cap);
     char desc[600]; snprintf(desc, sizeof desc, "n=%zu fam=%s params=[%s] %s dictMode=%d dictLen=%zu", W.n, v_df_name[fam], W.P.desc, W.oneShot ? "compress2" : W.S.desc, W.dictMode, W.dictLen);
@@ -104,7 +110,7 @@ static void run_case(long idx)
     for (int fill = 1; fill <= 2; fill++) { g_fill = fill; ZSTD_CCtx* c = ZSTD_createCCtx_advanced(FMEM); size_t const nv = run_workload(c, &W, &W.S, x, var, cap, cd); compare("heapfill", ref, nref, var, nv, &W, desc, fill == 1 ? "fresh memory filled with 0xFF" : "fresh memory filled with noise"); ZSTD_freeCCtx(c); }
     /* axis: prior context history (other frames, other parameters, failed/aborted operations + reset) */
     for (int h = 0; h < 2; h++) { g_fill = (int)vr_u(&r, 3); ZSTD_CCtx* c = ZSTD_createCCtx_advanced(FMEM); uint8_t* scratch = (uint8_t*)malloc(cap);
-        wear(c, &r, x, W.n, scratch, cap); size_t const nv = run_workload(c, &W, &W.S, x, var, cap, cd); compare("history", ref, nref, var, nv, &W, desc, "context worn by other frames / failed / aborted operations"); free(scratch); ZSTD_freeCCtx(c); }
+        wear(c, &r, x, W.n, scratch, cap, &W.P); size_t const nv = run_workload(c, &W, &W.S, x, var, cap, cd); compare("history", ref, nref, var, nv, &W, desc, "context worn by other frames / failed / aborted operations"); free(scratch); ZSTD_freeCCtx(c); }
     /* axis: static (caller-provided, noise-filled) memory; single-thread workloads only */
     if (!W.P.nbWorkers && W.dictMode != 1) {
         ZSTD_CCtx_params* cp = ZSTD_createCCtxParams(); vp_apply_params(cp, &W.P);
@@ -116,6 +122,12 @@ static void run_case(long idx)
     {   size_t const sh = 1 + vr_u(&r, 63); uint8_t* x2 = (uint8_t*)malloc(W.n + 128); memcpy(x2 + sh, x, W.n); uint8_t* var2 = (uint8_t*)malloc(cap + 128);
         g_fill = 0; ZSTD_CCtx* c = ZSTD_createCCtx_advanced(FMEM); size_t const nv = run_workload(c, &W, &W.S, x2 + sh, var2 + (sh % 13), cap, cd);
         compare("placement", ref, nref, var2 + (sh % 13), nv, &W, desc, "source and destination moved / misaligned"); ZSTD_freeCCtx(c); free(x2); free(var2); }
+    /* sub-axis: the prefix lies immediately before / after the source in memory (only under deterministicRefPrefix: without it the documentation allows a dependence) */
+    if (detPrefix) for (int where = 0; where < 2; where++) {
+        uint8_t* arena = (uint8_t*)malloc(W.n + W.dictLen + 64); workload W2 = W; const uint8_t* x2;
+        if (where == 0) { memcpy(arena, dict, W.dictLen); memcpy(arena + W.dictLen, x, W.n); W2.dict = arena; x2 = arena + W.dictLen; } else { memcpy(arena, x, W.n); memcpy(arena + W.n, dict, W.dictLen); W2.dict = arena + W.n; x2 = arena; }
+        g_fill = 0; ZSTD_CCtx* c = ZSTD_createCCtx_advanced(FMEM); size_t const nv = run_workload(c, &W2, &W.S, x2, var, cap, cd);
+        compare("placement-prefix-adjacent", ref, nref, var, nv, &W, desc, where == 0 ? "prefix immediately before the source (deterministicRefPrefix=1)" : "prefix immediately after the source (deterministicRefPrefix=1)"); ZSTD_freeCCtx(c); free(arena); }
     /* axis: output-capacity sequence (same input slices and directives) */
     if (!W.oneShot) for (int k = 0; k < 2; k++) {
         hscript S2 = W.S; S2.nOut = 1 + (int)vr_u(&r, 3); for (int i = 0; i < S2.nOut; i++) S2.outPat[i] = k == 0 ? cap : (size_t[]){ 7, 513, 4096, 50000, 131072 }[vr_u(&r, 5)]; if (W.n > 200000) for (int i = 0; i < S2.nOut; i++) if (S2.outPat[i] < 513) S2.outPat[i] = 513;
